@@ -225,6 +225,8 @@ def analyse(src: Source) -> List[Report]:
     check_c_comparisons(unit, rep)
     check_heap_scheduler(src, rep, unit)
     check_list_scheduler(src, rep)
+    from ..handler_dims import check_handler_dimensions
+    check_handler_dimensions(prog, src, rep, "R7.7-handler-dimensions", None)
     from ..components import check_component_consistency
     check_component_consistency(prog, rep, "R7.6-component-consistency")
     rep.expect_min("R7.6-component-consistency", 4)
@@ -298,6 +300,11 @@ MUTANTS = [
 MUTANTS.append(Edit("cell boundary: image shift with the stale direction", EH + "cell_boundary_event_handler.py",
                     "separation = setting.periodic_boundaries.next_image(separation, direction)",
                     "separation = setting.periodic_boundaries.next_image(separation, self._direction)", "R7.6", nth=0))
+MUTANTS.append(Edit("candidate time: inverse displacement added to the time stamp", EH + "two_leaf_unit_bounding_potential_event_handler.py",
+                    "self._event_time = self._active_leaf_unit.time_stamp + time_displacement", "self._event_time = self._active_leaf_unit.time_stamp + 1.0 / time_displacement", "R7.7"))
+MUTANTS.append(Edit("time slice with velocity squared", EH + "abstracts/abstracts.py",
+                    "unit.position[d] + unit.velocity[d] * (self._event_time - unit.time_stamp)",
+                    "unit.position[d] + unit.velocity[d] * unit.velocity[d] * (self._event_time - unit.time_stamp)", "R7"))
 TWINS = [
     Edit("exchange velocity with locals", EH + "abstracts/abstracts.py",
          "        target_unit.velocity = active_unit.velocity\n        target_unit.time_stamp = active_unit.time_stamp\n",
